@@ -9,7 +9,8 @@ OUTSIDE = ['mean and std VALUES of the entries (a bit-equality miter against the
            'decimation factors other than the small ones of the harness']
 EXPLANATION = ('L1: one block of NE*SDF samples with symbolic bytes per data type; a symbolic watched level-1 entry is compared with an independent reduction over its samples: '
                'min and max exact (comparison only), non-finite samples skipped, all-non-finite -> NaN, entry width per type, index offset and timestamps. L1 GRID: mean and std bit-equal. '
-               'LN: symbolic level-1 entries reduced to level 2: min of minima / max of maxima over finite-mean entries, NaN if none.')
+               'LN: symbolic level-1 entries reduced to level 2: min of minima / max of maxima over finite-mean entries, NaN if none. '
+               'two_blocks / two_chunks: successive reductions into one destination chunk: counts, index order, and which sample id the chunk carries, also after the level was written out.')
 
 HOOKS = ['JLS_VERIF_SIGNAL_COUNT=2', 'JLS_VERIF_SOURCE_COUNT=2', 'JLS_VERIF_FSR_BUFFER_U64=2']
 TYPES = {'f32': ['BITS=32'], 'f64': ['BITS=64'], 'i32': ['BITS=32', 'INT_T=1'], 'i16': ['BITS=16', 'SIGNED_T=1'], 'u16': ['BITS=16'], 'u8': ['BITS=8'], 'i8': ['BITS=8', 'SIGNED_T=1'],
